@@ -353,3 +353,8 @@ func DecodeFunc(msg any) func(*bytes.Buffer) error {
 	}
 	return func(b *bytes.Buffer) error { return Decode(msg, b) }
 }
+
+// RawFactory returns the library's New…MessageBy… function value itself (for direct, non-reflective calls).
+func RawFactory(p *refmodel.Proto, tab *refmodel.Table) any {
+	return factories[p.Protocol+"."+tab.Factory]
+}
